@@ -8,9 +8,9 @@ for f in $V/seeded/redteam/*/*.diff; do
   grep -qx "$d/$n" $V/seeded/redteam/EXCLUDED 2>/dev/null && continue
   grep -q "^$d/$n " $V/seeded/redteam/KNOWN-MISSES 2>/dev/null && continue
   case $d in
-    RT1|RU1|RV1) fam="C07 C01 C03 C06 C09";;
-    RT2|RU2|RV2) fam="C08 C09 C10";;
-    RT3|RU3|RV3) fam="C05 C04";;
+    RT1|RU1|RV1|RW1) fam="C07 C01 C03 C06 C09";;
+    RT2|RU2|RV2|RW2) fam="C08 C09 C10";;
+    RT3|RU3|RV3|RW3) fam="C05 C04";;
     *) case $n in c11_*) fam="C11 C12";; c12_*) fam="C12 C11";; c18_*) fam="C18 C19";; c19_*) fam="C19";; c20_*) fam="C20";; *) fam="C11 C12 C18 C19 C20";; esac;;
   esac
   W=/tmp/wt-red-$$; git -C /repo worktree add -q --detach $W HEAD; (cd $W && git apply $f) || { echo "$d/$n: patch does not apply"; git -C /repo worktree remove --force $W; fail=1; continue; }
